@@ -31,6 +31,8 @@ type Scenario struct {
 
 	// class pair / shared: a fixed template with parameters
 	Plan *PlanSpec `json:"plan,omitempty"`
+	// class burst: barrier-released concurrent Subscribe / Cancel rounds
+	Burst *BurstSpec `json:"burst,omitempty"`
 }
 
 // Delay configures the handlers installed at db.put.prenotify / db.sub.cancel.
@@ -139,6 +141,9 @@ type PlanSpec struct {
 	MatchOther bool   `json:"match_other"` // parked write also matches the bystanders
 	TargetPriv int    `json:"target_priv"` // privilege bits of the target subscription (1 local, 2 internal)
 	TargetCond bool   `json:"target_cond"` // target subscription has a condition
+	// hooks template HP: Hooks[0] parks inside its own callback (the operation is in
+	// the middle of its hook chain) while another hook is cancelled
+	HPRounds []HPRound `json:"hp_rounds,omitempty"`
 }
 
 // ---------------------------------------------------------------------------------
@@ -244,3 +249,10 @@ func buildQuery(db, prefix string, c *Cond) *query.Query {
 }
 
 func keyOf(writer int, op *OpSpec) string { return fmt.Sprintf("%sk%d-%d", op.Dir, writer, op.N) }
+
+// HPRound is one round of the hooks template HP.
+type HPRound struct {
+	Phase  string `json:"phase"`  // phase in which Hooks[0] parks: preget postget preput
+	Target int    `json:"target"` // hook cancelled while the operation is parked
+	N      int    `json:"n"`      // key number of the operation
+}
